@@ -378,6 +378,20 @@ for name in (['line2', 'ring3'] if a.tier == 'quick' else ['line2', 'line3', 'ri
                 wit.append({'key': key, 'problems': [f'preamplifier of the single-band line: {type(pre).__name__} {getattr(pre.params, "type_variety", None)}']})
         except Exception as e:
             wit.append({'key': key, 'problems': [f'auto-design did not complete: {type(e).__name__}: {e}'[:300]]})
+    # a splice in front of an operator-placed multi-band in-line amplifier: the short span in front of it is padded all the same
+    if name == 'line2':
+        cases += 1
+        key = 'C+L: fibre 10 km - fused - multi-band amplifier'
+        try:
+            eq = equipment('eqpt_config_multiband.json')
+            els = [_trx('trx A'), _trx('trx B'), _roadm('roadm A', design_bands=CL), _roadm('roadm B', design_bands=CL), _fiber('f1', 10),
+                   _fused('fu', 1), {'uid': 'ila', 'type': 'Multiband_amplifier', 'type_variety': 'std_medium_gain_multiband', 'amplifiers': []},
+                   _fiber('f2', 70), _fiber('back', 80)]
+            chain = ['trx A', 'roadm A', 'f1', 'fu', 'ila', 'f2', 'roadm B', 'trx B']
+            cons = list(zip(chain, chain[1:])) + [('trx B', 'roadm B'), ('roadm B', 'back'), ('back', 'roadm A'), ('roadm A', 'trx A')]
+            check({'elements': els, 'connections': [{'from_node': x, 'to_node': y} for x, y in cons]}, eq, key, 'fused')
+        except Exception as e:
+            wit.append({'key': key, 'problems': [f'{type(e).__name__}: {e}'[:300]]})
     # the same ROADMs with an operator-placed single-band in-line amplifier on every line: those lines stay single-band lines
     cases += 1
     key = f'{name}:[40, 60]:multiband ROADMs, single-band in-line amplifier given'
